@@ -151,10 +151,20 @@ def parse_loop(repo):
     if len(ex.loops) != 1:
         raise NotRec(f'{len(ex.loops)} loops (expected one pass over the arguments)')
     L = next(iter(ex.loops.values()))
-    if L['kind'] != 'for':
-        raise NotRec('not a for loop over the arguments')
+    index = None
     it, elem = L['iter'], L['elem']
-    if it is P or (it.op == 'call' and F.callee_name(it.a[0]) in ('iter', 'list', 'tuple') and list(it.a[1]) == [P] and not it.a[2]):
+    if L['kind'] == 'while':
+        # `i = 0; while i < len(args): arg = args[i]; i += 1; …` — the same pass, spelled with an index
+        c = L['cond']
+        if c is not None and c.op == 'cmp' and c.a[0] in ('<', '>'):
+            lo, hi = (c.a[1], c.a[2]) if c.a[0] == '<' else (c.a[2], c.a[1])
+            if lo.op == 'lv' and lo.a[0] == L['id'] and F.is_k(L['init'].get(lo.a[1]), 0) and hi.op == 'call' \
+                    and F.callee_name(hi.a[0]) == 'len' and list(hi.a[1]) == [P]:
+                index = lo
+        if index is None:
+            raise NotRec('not a pass over the argument list')
+        A = ex.item(P, index)
+    elif it is P or (it.op == 'call' and F.callee_name(it.a[0]) in ('iter', 'list', 'tuple') and list(it.a[1]) == [P] and not it.a[2]):
         A = elem
     elif it.op == 'call' and F.callee_name(it.a[0]) == 'enumerate' and list(it.a[1]) == [P] and not it.a[2]:
         A = ex.item(elem, F.K(1))
@@ -196,7 +206,7 @@ def parse_loop(repo):
     def happens(events, val):
         out = []
         for e in events:
-            if _decided(e.pc, val):
+            if _decided(F.relative_pc(e.pc, loop_base), val):
                 if e.kind == 'call':
                     recv, meth = F.split_method(e.f)
                     out.append((meth, F.resolve(recv, val), tuple(F.resolve(x, val) for x in e.args)))
@@ -209,12 +219,16 @@ def parse_loop(repo):
     upd = L['update'].get(fname)
     if upd is None:
         raise NotRec('the pending flag is never updated')
+    step = L['update'].get(index.a[1]) if index is not None else None
+    loop_base = (L['cond'],) if index is not None else ()       # inside the body the loop condition holds
     stored = None
     for is_flag in (True, False):
         for pending in (True, False):
             val = F.Val().set(prefix_atom, is_flag).set(none_in, not pending)
             did = happens(in_loop, val)
             nf = F.resolve(upd, val)
+            if index is not None and (step is None or F.resolve(step, val) is not F.mk('bin', '+', index, F.K(1))):
+                raise NotRec('the index does not advance by one in every case')
             if is_flag:
                 want = [('append', U, (Fl,))] if pending else []
                 if did != want or nf is not A:
